@@ -3,6 +3,7 @@ CONSTANTS
   Threads = {"t1", "t2", "t3"}
   Progs <- ProgTable
   Dev = {}
+  ProgSel = {"rd", "wr", "wg", "wd", "uw", "fc", "dp", "df", "pu", "uid", "uid2"}
   MaxJobs = 1
 INVARIANTS Deterministic BuiltinImmutable Unique CounterMatches MutexOk MatchesAlone Emit
 CHECK_DEADLOCK FALSE
